@@ -1135,10 +1135,12 @@ tp_shutdown(tp_p tp) {
 	if (0 != __sync_fetch_and_add(&tp->shutdown, 1))
 		return;
 	LCB_VP(10, tp);
-	/* Private virtual thread. */
-	tp->pvt->state = TP_THREAD_STATE_STOP;
-	if (NULL != tp->s.tpt_on_stop) {
-		tp->s.tpt_on_stop(tp->pvt);
+	/* Private virtual thread: not started if tp_create() failed early. */
+	if (TP_THREAD_STATE_RUNNING == tp->pvt->state) {
+		tp->pvt->state = TP_THREAD_STATE_STOP;
+		if (NULL != tp->s.tpt_on_stop) {
+			tp->s.tpt_on_stop(tp->pvt);
+		}
 	}
 	/* Shutdown threads. */
 	for (size_t i = 0; i < tp->s.threads_max; i ++) {
